@@ -301,11 +301,14 @@ pub fn gen_world(r: &mut Rng) -> Vec<Tree> {
         let mutk = |r: &mut Rng| -> (u64, u64, u64) {
             if r.chance(5, 6) {
                 (0, 0, 0)
+            } else if r.chance(1, 3) {
+                // the first 54 bytes: prefix and sequence of a sealed datagram; version, protocol id, expiry, nonce of a request
+                (1, r.below(54 * 8), 0)
             } else {
                 (r.range(1, 4), r.below(12000), r.below(256))
             }
         };
-        let w: [u32; 22] = [14, 16, 14, 3, 3, 6, 9, 9, 5, 2, 2, 2, 3, 3, 3, 2, 10, 2, 2, 3, 4, 3];
+        let w: [u32; 25] = [14, 16, 14, 3, 3, 6, 9, 9, 5, 2, 2, 2, 3, 3, 3, 2, 10, 2, 2, 3, 4, 3, 4, 3, 2];
         match r.weighted(&w) {
             0 => {
                 // time passes for everybody (mostly), or for one endpoint only
@@ -407,6 +410,36 @@ pub fn gen_world(r: &mut Rng) -> Vec<Tree> {
                 let kc = r.below(nclients as u64);
                 ops.push(l(vec![n(155u8), n(k), n(kc), n(r.range(0, 300))]));
             }
+            21 => {
+                // a request reaches the server, its retransmission arrives with one bit of a public field flipped
+                // (the address is pending by then), then the genuine one again
+                ops.push(l(vec![n(103u8), n(k), n(250 * MS)]));
+                ops.push(l(vec![n(150u8), n(k), n(0u8), n(0u8), n(0u8), n(0u8)]));
+                ops.push(l(vec![n(103u8), n(k), n(250 * MS)]));
+                ops.push(l(vec![n(150u8), n(k), n(0u8), n(1u8), n(r.range(8, 54 * 8 - 1)), n(0u8)]));
+                if r.chance(1, 2) {
+                    ops.push(l(vec![n(150u8), n(k), n(0u8), n(0u8), n(0u8), n(0u8)]));
+                }
+            }
+            22 => {
+                // a late responder: k is challenged, the others connect (the server may be full by then),
+                // then k answers with a foreign or garbage challenge, then with its own
+                ops.push(l(vec![n(103u8), n(k), n(250 * MS)]));
+                ops.push(l(vec![n(150u8), n(k), n(0u8), n(0u8), n(0u8), n(0u8)]));
+                for j in 0..nclients as u64 {
+                    if j != k {
+                        ops.push(l(vec![n(170u8), n(j), n(4u8)]));
+                    }
+                }
+                if r.chance(1, 2) {
+                    ops.push(l(vec![n(158u8), n(k), n(r.range(0, 300)), b(&r.bytes(300))]));
+                } else {
+                    ops.push(l(vec![n(155u8), n(k), n((k + 1) % nclients as u64), n(r.range(0, 300))]));
+                }
+                ops.push(l(vec![n(116u8)]));
+                ops.push(l(vec![n(155u8), n(k), n(k), n(r.range(0, 300))]));
+            }
+            23 => ops.push(l(vec![n(158u8), n(k), n(r.range(0, 300)), b(&r.bytes(300))])),
             19 => {
                 // reflection: an endpoint's own datagrams come back to it
                 if r.chance(1, 2) {
